@@ -175,12 +175,18 @@ func (st *Stream) produceKVs(ctx context.Context, threadId int) error {
 	defer st.numProducers.Add(-1)
 
 	var txn *Txn
+	if y.VerifEnabled {
+		y.VerifGate("stream.producer", threadId)
+	}
 	if st.readTs > 0 {
 		txn = st.db.NewTransactionAt(st.readTs, false)
 	} else {
 		txn = st.db.NewTransaction(false)
 	}
 	defer txn.Discard()
+	if y.VerifEnabled {
+		y.VerifEvent("stream.txn", threadId, txn.readTs)
+	}
 
 	// produceKVs is running iterate serially. So, we can define the outList here.
 	outList := z.NewBuffer(2*batchSize, "Stream.ProduceKVs")
